@@ -444,7 +444,9 @@ func Generate(seed uint64, profile string, faults bool) *Scenario {
 		if g.p(200) {
 			// states reached through a crash and a restart from the last snapshot are reachable states too
 			cfg.Store = "mem"
-			cfg.WCrash = 1
+			cfg.WCrash = g.oneOf(0, 1)
+			o.retention = g.p(600) // retention must never take a waiting job away
+			mix["save"] = 3
 		}
 	case "C04":
 		o.maxTasks = 4
@@ -544,7 +546,7 @@ func Generate(seed uint64, profile string, faults bool) *Scenario {
 		cfg.Store = "mem"
 		cfg.Readers = true
 		cfg.NoOracle = true
-		cfg.HTTP = g.p(500) // the HTTP handlers are the first user of the exported operations: 40% of the requests go through them
+		cfg.HTTP = g.p(600) // the HTTP handlers are the first user of the exported operations: 40% of the requests go through them
 		o.retention = true
 		mix = map[string]int{"schedule": 8, "cancel": 6, "read": 3, "list": 3, "iterate": 5, "save": 5, "reload": 2}
 		nClients = 2 + g.n(3)
